@@ -4,6 +4,7 @@ C18.a registry <-> wrappers <-> renderer agree: names registered, arities, SMT-L
 C18.b commutativity flags only where SMT-LIB semantics is argument-order independent; __eq__ permutes only under the flag
 C18.c no n-ary simplifier can build a connector with zero arguments; the empty case returns the neutral element
 C18.d simplifier decision tables over the finite domain of argument shapes (literal true/false, atom, nested node)
+C18.e literals and formulas are compared by value, not identity
 """
 import ast
 import itertools
